@@ -1,7 +1,7 @@
 //! C10 — Wrath server headers of both lengths round-trip and keep the stream in step.
 use crate::objs;
 use crate::util::*;
-use crate::faultio::{Fail, FragReader};
+use crate::faultio::{Fail, FragReader, FragWriter};
 use wow_srp::wrath_header::{ClientCrypto, ServerCrypto, WrathServerAttempt};
 
 pub fn layout(size: u32, opcode: u16) -> Vec<u8> {
@@ -35,7 +35,13 @@ pub fn one_header(rep: &mut Rep, c: &mut Conn, size: u32, opcode: u16, via_write
     let replay = move || format!("hdr {} {} {} {} {} {}", hex(&k0), sent0, size, opcode, via_writer as u8, path);
     let lclass = if size > 0x7FFF { "long" } else { "short" };
     let wire: Vec<u8> = match guard(|| {
-        if via_writer {
+        if via_writer && c.sent % 4 != 0 {
+            // a sink that takes the header in short writes that change from header to header (a socket buffer may fill
+            // anywhere inside a header), now and then interrupted
+            let cuts = (c.sent as u32).wrapping_mul(0x85EB_CA6B) >> 27;
+            let mut w = FragWriter::new(5, cuts, (c.sent & 16) != 0, Fail::None);
+            c.server.write_encrypted_server_header(&mut w, size, opcode).map(|_| w.sink)
+        } else if via_writer {
             let mut v = Vec::new();
             c.server.write_encrypted_server_header(&mut v, size, opcode).map(|_| v)
         } else {
@@ -44,6 +50,11 @@ pub fn one_header(rep: &mut Rep, c: &mut Conn, size: u32, opcode: u16, via_write
     }) {
         Ok(Ok(v)) => v,
         Ok(Err(e)) => {
+            if c.sent % 4 != 0 {
+                // an error for a sink that merely takes short writes: C11 owns that verdict; this connection is abandoned
+                rep.count("info_write_wrapper_error_for_short_writes_connection_abandoned", 1);
+                return false;
+            }
             rep.violation("c10:write_error_on_vec", format!("writing a header into a Vec failed: {}", e), replay());
             return false;
         }
